@@ -367,6 +367,18 @@ def RecurSpec (σ : UId → Rat) (recur : UId → UId → List UId → CM Rat (L
     GraphOK σ c → a < c.st.units.length → b < c.st.units.length →
     CM.exec (recur a b v) c = (.ok (p, v'), c') → PathSpec σ c a b p c'
 
+theorem Table.get?_some_mem {β : Type} {t : Table β} {a b : UId} {m : β} (h : t.get? a b = some m) :
+    (b, m) ∈ t.row a := by
+  unfold Table.get? at h
+  cases hf : (t.row a).find? (fun c => c.1 == b) with
+  | none => rw [hf] at h; cases h
+  | some c =>
+    rw [hf] at h
+    simp only [Option.some.injEq] at h
+    have hm := List.mem_of_find?_eq_some hf
+    have hb : c.1 = b := by have := List.find?_some hf; simpa using this
+    rw [← h, ← hb]; exact hm
+
 theorem offsets_get_nil (a b : UId) : Table.get? ([] : Table (Mag Rat)) a b = none := rfl
 
 theorem pathLoop_sound {recur : UId → UId → List UId → CM Rat (List (Hop Rat) × List UId)}
@@ -508,6 +520,29 @@ theorem findPathRec_sound : ∀ fuel, RecurSpec σ (findPathRec (α := Rat) fuel
         obtain ⟨⟨rfl, rfl⟩, rfl⟩ := hx
         exact ⟨hg, CFrame.refl _, by simp, by simp, by simp, by simp⟩
       · simp only [hvis, Bool.false_eq_true, ↓reduceIte] at hx
+        obtain ⟨c0, c0', h0, hx⟩ := exec_bind_ok hx
+        rw [exec_getThe'] at h0
+        simp only [Prod.mk.injEq, Except.ok.injEq] at h0
+        obtain ⟨rfl, rfl⟩ := h0
+        by_cases hdir : (directEdge c start stop).isSome = true
+        · -- the declared edge between these very units
+          simp only [hdir, ↓reduceIte, exec_pure, Prod.mk.injEq, Except.ok.injEq] at hx
+          obtain ⟨⟨rfl, rfl⟩, rfl⟩ := hx
+          unfold directEdge at hdir ⊢
+          cases hget : c.ratios.get? start stop with
+          | none => rw [hget] at hdir; simp at hdir
+          | some scale =>
+            have hmem := Table.get?_some_mem hget
+            obtain ⟨_, _, hv⟩ := hg.edges start stop scale hmem
+            obtain ⟨hn1, hn2⟩ := hg.nodes start stop scale hmem
+            simp only [Option.map_some, Option.toList_some]
+            refine ⟨hg, CFrame.refl _, ?_, ?_, fun _ => Or.inr ⟨hn1, hn2⟩, ?_⟩
+            · intro h hh; simp only [List.mem_singleton] at hh; subst hh; exact ht
+            · intro _; simp only [pathScale_cons, pathScale_nil, mul_one]; exact hv
+            · intro hoff h hh
+              simp only [List.mem_singleton] at hh; subst hh
+              simp only [hoff, offsets_get_nil, Option.getD_none]; rfl
+        simp only [hdir, Bool.false_eq_true, ↓reduceIte] at hx
         obtain ⟨⟨e, start', stop'⟩, c1, h1, hx⟩ := exec_bind_ok hx
         obtain ⟨g1, f1, hs', ht', zs, zt, he, ps, pt⟩ := reduceDimension_ok hg hs ht h1
         simp only at hx
